@@ -265,6 +265,15 @@ def run(ctx):
                 if (ord(ch) not in html._invalid_charrefs and ord(ch) not in html._invalid_codepoints) and html.unescape(rep) != ch:
                     ctx.violation({"fn": "encode(htmlentityreplace)", "charset": cs, "input": ch, "output": rep},
                                   "replacement does not decode back to the character", tags=["c10.handler.decode"])
+                # ... also by the library's own decoder (the references are written with upper-case hexadecimal digits)
+                try:
+                    from mako import filters as _mf
+                    back = _mf.html_entities_unescape(rep)
+                except Exception as e:  # noqa
+                    back = "raised %s" % type(e).__name__
+                if back != ch:
+                    ctx.violation({"fn": "html_entities_unescape(encode(htmlentityreplace))", "charset": cs, "input": ch, "replacement": rep, "decoded": back},
+                                  "the library's own decoder does not read back the replacement the library wrote", tags=["c10.handler.own-decoder"])
     # through Template.render
     for cs in CHARSETS:
         for s in ["a€b", "Ж<&>", "plain", "\U0001d4b3é"]:
